@@ -217,6 +217,7 @@ pub struct Machine<'a> {
     /// (error position info) errors that occurred at a position that is neither first nor last of the block
     pub stat_mid_block_errors: usize,
     pub stat_else_taken: usize,
+    pub stat_elem_assigned: usize,
 }
 
 struct Abort;
@@ -245,6 +246,7 @@ impl<'a> Machine<'a> {
             stat_done_parallel: 0,
             stat_mid_block_errors: 0,
             stat_else_taken: 0,
+            stat_elem_assigned: 0,
         }
     }
 
@@ -365,6 +367,23 @@ impl<'a> Machine<'a> {
                 match self.eval_expr(e) {
                     Ok(x) => {
                         self.vars.insert(v.clone(), x);
+                        Ok(())
+                    }
+                    Err(_) => {
+                        self.error();
+                        Err(Abort)
+                    }
+                }
+            }
+            Stmt::AssignElem(a, k, e) => {
+                if !self.arrays.get(a).map(|x| *k < x.len()).unwrap_or(false) {
+                    self.error();
+                    return Err(Abort);
+                }
+                match self.eval_expr(e) {
+                    Ok(x) => {
+                        self.arrays.get_mut(a).unwrap()[*k] = x;
+                        self.stat_elem_assigned += 1;
                         Ok(())
                     }
                     Err(_) => {
